@@ -102,7 +102,7 @@ def _validate(ctx, results):
     out = []
 
     def one(r):
-        return r, ctx.validate(r[0], module='OffsetTrace')
+        return r, ctx.validate(r[0], module='OffsetTrace', heap='3g')
 
     with cf.ThreadPoolExecutor(max_workers=min(6, max(1, len(results)))) as ex:
         for r in ex.map(one, [r for r in results if r[0]['traces']]):
@@ -133,6 +133,8 @@ def _collect(ctx, validated):
                     'script': sc['script'][:step],
                 }, detail=json.dumps(sc['script'][step - 1], default=str))
         for tr in batch['traces']:
+            if tr['init']['liveP'] != tr['init']['srcP']:
+                ctx.extra['traces_not_in_sync_at_start'] = ctx.extra.get('traces_not_in_sync_at_start', 0) + 1
             for ev in tr['steps']:
                 n += 1
                 ctx.distinct.add(ev['cls'])
@@ -152,7 +154,7 @@ def _gen_rows(ctx, cfg):
     path = os.path.join(tlc.scratch(), f'c11-{cfg}.json')
     os.environ['C11_OUT'] = path
     try:
-        ctx.model('OffsetGen', cfg, workers=1, coverage=False, heap='6g')
+        ctx.model('OffsetGen', cfg, workers=1, coverage=False, heap='4g')
     finally:
         os.environ.pop('C11_OUT', None)
     try:
@@ -212,10 +214,10 @@ def run(ctx):
     ]
     # ---- M
     if ctx.quick:
-        ctx.model('OffsetMC', 'OffsetMC', required=ACTIONS)
+        ctx.model('OffsetMC', 'OffsetMC', required=ACTIONS, heap='3g')
     else:
-        ctx.model('OffsetMC', 'OffsetMC_thorough', required=ACTIONS, timeout=1500)
-        ctx.model('OffsetMC', 'OffsetMC_n5', required=ACTIONS, timeout=2400)
+        ctx.model('OffsetMC', 'OffsetMC_thorough', required=ACTIONS, timeout=1500, heap='6g')
+        ctx.model('OffsetMC', 'OffsetMC_n5', required=ACTIONS, timeout=3000, heap='6g')
     # ---- G
     rows = _gen_rows(ctx, 'OffsetGen' if ctx.quick else 'OffsetGen_thorough')
     cases, total = _g_cases(ctx, rows, 5000 if ctx.quick else 120000)
@@ -303,7 +305,7 @@ def selftest(ctx):
     g, _ = H.model_case(rec, 900, row, row['sp'][3], 1)
     traces.append(g)
     base = dict(rec.tab.dump(), traces=traces)
-    ok = ctx.validate(base, module='OffsetTrace')
+    ok = ctx.validate(base, module='OffsetTrace', heap='3g')
     if any(v['bad'] for v in ok.values()):
         raise common.Machinery(f'selftest: pristine batch rejected: {ok}')
 
@@ -338,7 +340,7 @@ def selftest(ctx):
             else:
                 ev['expText'] = pre['text']
             tid, step = tr['id'], i + 1
-        verd = ctx.validate(b, module='OffsetTrace')
+        verd = ctx.validate(b, module='OffsetTrace', heap='3g')
         got = {c for s, c, _ in verd[tid]['bad'] if s == step}
         others = [t for t, v in verd.items() if v['bad'] and t != tid]
         good = must <= got and not others
